@@ -105,6 +105,23 @@ func runC01(c *Ctx, r *Rec) {
 	checkTypeLockPairing(c, r, "D4-lock-released", lst)
 	checkTypeLockPairing(c, r, "D4-lock-released", arr)
 	checkReceiverWrites(c, r, "D4-receiver-writes-persist", arr)
+	{
+		files := map[string]bool{}
+		for _, n := range []*types.Named{arr, lst} {
+			for _, fd := range c.methodsOf(n) {
+				files[c.Fset.Position(fd.Pos()).Filename] = true
+			}
+		}
+		var fds []*ast.FuncDecl
+		for _, fd := range c.allFuncDecls("collection") {
+			if files[c.Fset.Position(fd.Pos()).Filename] {
+				fds = append(fds, fd)
+			}
+		}
+		checkUnsignedSizeMinus(c, r, "D2-unsigned-size-minus", fds)
+		checkIndexGuardAdmitsLength(c, r, "D2-guard-excludes-the-length", fds)
+		checkNoDynamicEquality(c, r, "D2c-no-dynamic-equality", fds)
+	}
 	// ---- D2 normalisers
 	type layer struct {
 		n      *types.Named
